@@ -360,9 +360,6 @@ def check_one_piece(ctx, case):
     ref = ctx.one_piece(side, msgs)
     for i, msg in enumerate(msgs):
         st = ctx.structure(side, msg)
-        if not st['ok']:
-            b.inconclusive_because('corpus/generator produced a message the reference parser rejects: %r (%s)' % (msg[:80], st.get('why')))
-            return
         exp = expected_event(side, st)
         if exp is None:
             b.reached(side + '.nobody_or_until_close_trivial')
@@ -402,12 +399,14 @@ def known_triggers(ctx, case):
             bt = True
         if side == 'server' and st['te_variant'] and any(p >= st['head_end'] for p in cuts):
             c = True
+    # order matters for attribution: removing the cuts behind the zero-size chunk line (K_TAIL's twin) also removes cuts
+    # that trigger K_TECASE, so the narrower neutralisation (respelling the coding name) is tried first
     if a:
         present.append(K_FIRSTLINE)
-    if bt:
-        present.append(K_TAIL)
     if c:
         present.append(K_TECASE)
+    if bt:
+        present.append(K_TAIL)
     return present
 
 
@@ -447,6 +446,11 @@ def subsets(keys):
 def evaluate(ctx, case):
     b = ctx.b
     side, msgs, cutss = case['side'], case['msgs'], case['cuts']
+    bad = [m for m in msgs if not ctx.structure(side, m)['ok']]
+    if bad:
+        b.inconclusive_because('corpus/generator produced a message the reference parser does not accept as exactly one message: %r (%s)'
+                               % (bad[0][:120], ctx.structure(side, bad[0]).get('why', 'trailing bytes')))
+        return
     try:
         check_one_piece(ctx, case)
         ref = ctx.one_piece(side, msgs)
@@ -517,7 +521,7 @@ SERVER_CORPUS = [
     b'GET /fold HTTP/1.1\r\nHost: h\r\nX-Fold: first\r\n second\r\n\tthird\r\nX-After: z\r\n\r\n',
     b'GET /dup?q= HTTP/1.1\r\nHost: h\r\nX-Dup: a\r\nX-Dup: b\r\nX-Empty:\r\nX-Space:    v   \r\nX-NoSpace:v\r\n\r\n',
     b'POST /submit HTTP/1.1\r\nHost: h\r\nContent-Type: text/plain\r\nContent-Length: 11\r\n\r\nhello world',
-    b'POST /crlf HTTP/1.1\r\nHost: h\r\nContent-Length: 14\r\n\r\n\r\n\r\n0\r\n\r\nGET / ',
+    b'POST /crlf HTTP/1.1\r\nHost: h\r\nContent-Length: 15\r\n\r\n\r\n\r\n0\r\n\r\nGET / ',
     b'PUT /empty HTTP/1.1\r\nHost: h\r\nContent-Length: 0\r\n\r\n',
     b'POST /old HTTP/1.0\r\nContent-Length: 3\r\nConnection: keep-alive\r\n\r\nabc',
     b'POST /bin HTTP/1.1\r\nHost: h\r\nContent-Length: 8\r\n\r\n\x00\x01\xff\xfe\r\n\x80\x7f',
@@ -668,7 +672,9 @@ def gen_headers(rng, n):
             val = rword(rng, VAL, 0, 24).strip()
         sep = rng.choice([': ', ':', ':  ', ':\t'])
         line = name + sep + val
-        if r < 0.25:  # obsolete line folding
+        if name == 'Cookie':
+            pass       # the cookie jar has its own syntax; a folded or padded cookie is not what this grammar is about
+        elif r < 0.25:  # obsolete line folding
             for _ in range(rng.randint(1, 2)):
                 line += '\r\n' + rng.choice([' ', '\t', '  ']) + (rword(rng, VAL, 1, 12).strip() or 'x')
         elif r < 0.35:
@@ -696,7 +702,7 @@ def gen_chunked(rng):
             size = size.upper()
         if rng.random() < 0.2:
             size = '0' * rng.randint(1, 2) + size
-        ext = rng.choice(['', '', '', ';a', ';a=b', ';a="q s"', ' ;x=1'])
+        ext = rng.choice(['', '', '', ';a', ';a=b', ';a="q s"', ';x=1;y'])
         out.append(size.encode() + ext.encode() + b'\r\n' + p + b'\r\n')
     last = rng.choice(['0', '0', '00', '0;fin', '0;a=b'])
     trailers = ''
@@ -714,8 +720,8 @@ def gen_request(rng, keepalive, allow_head=True):
         method = rng.choice(['GET', 'GET', 'DELETE', 'OPTIONS', 'HEAD' if allow_head else 'GET', 'TRACE', 'M-SEARCH'])
     else:
         method = rng.choice(['POST', 'PUT', 'PATCH', 'POST', 'REPORT'])
-    path = '/' + '/'.join(rword(rng, SEG, 1, 8) for _ in range(rng.randint(0, 3)))
-    if rng.random() < 0.15:
+    path = '/' + '/'.join(rword(rng, SEG, 1, 8).replace('..', 'x.').strip('.') or 'd' for _ in range(rng.randint(0, 3)))
+    if rng.random() < 0.15 and path != '/':
         path += '/'
     if rng.random() < 0.1:
         path += '%20x'
@@ -760,7 +766,7 @@ def gen_response(rng, keepalive):
     body = b''
     if r < 0.08:
         code, reason = rng.choice([(204, 'No Content'), (304, 'Not Modified')])
-        if rng.random() < 0.6:
+        if keepalive or rng.random() < 0.6:   # without Content-Length the client never delivers it (and loses what follows)
             hs.insert(rng.randint(0, len(hs)), 'Content-Length: 0')
     elif r < 0.13 and not keepalive:
         code, reason = 200, 'OK'
